@@ -172,24 +172,19 @@ def _transpose_note_inplace(note, interval):
     if interval.quality + str(interval.number) == "P1":
         pass
     else:
-        # TODO work for arbitrary octave.
+        sign = 1 if interval.direction == "up" else -1
         prev_step = note.step.capitalize()
-        note.step = _transpose_step(prev_step, interval.number, interval.direction)
-        if STEPS[note.step] - STEPS[prev_step] < 0 and interval.direction == "up":
-            note.octave += 1
-        elif STEPS[note.step] - STEPS[prev_step] > 0 and interval.direction == "down":
-            note.octave -= 1
-        else:
-            note.octave = note.octave
         prev_alter = note.alter if note.alter is not None else 0
-        prev_pc = MIDI_BASE_CLASS[prev_step.lower()] + prev_alter
-        tmp_pc = MIDI_BASE_CLASS[note.step.lower()]
-        if interval.direction == "up":
-            diff_sm = tmp_pc - prev_pc if tmp_pc >= prev_pc else tmp_pc + 12 - prev_pc
-        else:
-            diff_sm = prev_pc - tmp_pc if prev_pc >= tmp_pc else prev_pc + 12 - tmp_pc
+        prev_pitch = pitch_spelling_to_midi_pitch(prev_step, prev_alter, note.octave)
+        # move by staff steps; the octave follows the step
+        staff_position = STEPS[prev_step] + 7 * note.octave + sign * (interval.number - 1)
+        note.step = STEPS[staff_position % 7]
+        note.octave = staff_position // 7
+        # the alteration makes up the interval's size in semitones
         note.alter = (
-            INTERVAL_TO_SEMITONES[interval.quality + str(interval.number)] - diff_sm
+            prev_pitch
+            + sign * INTERVAL_TO_SEMITONES[interval.quality + str(interval.number)]
+            - pitch_spelling_to_midi_pitch(note.step, 0, note.octave)
         )
 
 
